@@ -1,9 +1,13 @@
 (* C16: the logger is an observer.
-   (A) Log transparency: attaching, detaching or omitting the logger never changes which callbacks
-       run, their order, what they see, what they do, or any resulting state. Technique: [strip]
-       (logger := false, log records erased from the trace) commutes with every function of
-       Model/Machine.v, given that the oracle itself cannot see log records.
-   (B) Log faithfulness, function level: where the records are emitted. *)
+   (A) Log transparency: attaching, detaching or omitting the logger (at run time, or at compile time through
+       the log mode) never changes which callbacks run, their order, what they see, what they do, what the API
+       returns, or any resulting state. Technique: [strip] (logger := false, log records erased from the trace)
+       commutes with every function of Model/Machine.v, bottom-up, given that the oracle itself cannot see
+       log records ([log_blind]). Main theorems: log_transparent_gen, log_transparent, step_log_transparent,
+       run_log_transparent(_core/_observe/_trace), run_log_mode_irrelevant.
+   (B) Log faithfulness, function level: which records perform emits (perform_log, perform_ignored_silent)
+       and where the method records sit relative to the callbacks (deliver_log_adjacent, deliver_log_silent).
+   Depends on Model/Script.v only for the remark that the scripted oracle is log-blind. *)
 From Coq Require Import List Arith Bool NArith.
 From FFSM2 Require Import Model.TaskList Model.BitArray Model.Plan Model.Ancestors Model.Dispatch
                           Model.Bits Model.BitStream Model.Machine Model.Script.
@@ -965,9 +969,6 @@ Proof.
   - exists []. split; [reflexivity|constructor].
 Qed.
 
-(* no callback without its record: whenever user code runs for (w, m) and logs says so, deliver's additions
-   are non-empty and start (oldest) with the record -- already deliver_log_adjacent; conversely a record
-   never depends on whether any callback is delivered *)
 End Faithful.
 
 Print Assumptions perform_log.
